@@ -155,6 +155,8 @@ def check(ctx):
                 isinstance(s.mod.parents.get(s.mod.parents.get(s.node)), (ast.For, ast.comprehension)) and \
                 s.mod.parents.get(s.mod.parents.get(s.node)).iter is s.mod.parents.get(s.node):
             pass       # `for lst in (self._events, self._paused_events): ...` -- the lists are iterated, what the body does is seen at its own sites
+        elif kind in ('assign-alias', 'other', 'binop') and inv.flows_to_read_only_local(s.mod, s.func, s.node):
+            pass       # `events = self._events + self._paused_events if both else self._events; return any(... for x in events)`: a query
         elif kind in ('return', 'assign-alias', 'other', 'attr', 'binop'):
             ok, msg = False, f'the pending-event list escapes or is used in an unrecognised way ({role[0]})'
         if mutating and not inside:
